@@ -388,6 +388,20 @@ func execHistory(cmpName, opsStr string) string {
 					return
 				}
 				outs = append(outs, shapeString(t))
+			case f[0] == "Z": // traversals alive together through iter.Pull (round5.go)
+				travs, ok := parseZip(f, len(trees))
+				if !ok {
+					bad = true
+					return
+				}
+				outs = append(outs, zipRun(trees, travs, f[2]))
+			case f[0] == "Y": // read-only calls from inside a loop body (round5.go)
+				outer, stop, every, inners, ok := parseNest(f, len(trees))
+				if !ok {
+					bad = true
+					return
+				}
+				outs = append(outs, nestRun(trees, outer, stop, every, inners))
 			default:
 				bad = true
 				return
@@ -1223,6 +1237,7 @@ func main() {
 				genClone(g, r.Range(1, g.Scale(24, 60)))
 			}
 			genLimits(g)
+			genRound5(g)
 			genScale(g)
 		})
 }
